@@ -314,15 +314,13 @@ RECURSIVE SetToSeq(_)
 SetToSeq(S) == IF S = {} THEN <<>> ELSE LET x == CHOOSE x \in S : TRUE IN <<x>> \o SetToSeq(S \ {x})
 
 (* The pinned tree has all deviations at once.  When that changes the       *)
-(* observable, every deviation is mapped to the observables predicted by    *)
-(* the sets of deviations containing it: sequence of [devs, obs].           *)
+(* observable, the vector carries the observables predicted by the sets of  *)
+(* deviations (minimal ones only): sequence of [d |-> names, o |-> obs].    *)
 DevMap(toks, ideal) ==
   IF Observe(toks, AllDevs) = ideal THEN <<>>
   ELSE LET all  == {[ds |-> S, obs |-> Observe(toks, S)] : S \in (SUBSET AllDevs) \ {{}}}
-           \* only minimal sets: no smaller set of deviations predicts the same observable
            alts == {a \in all : a.obs # ideal /\ ~\E b \in all : b.ds # a.ds /\ b.ds \subseteq a.ds /\ b.obs = a.obs}
-       IN [d \in {d \in AllDevs : \E a \in alts : d \in a.ds} |->
-             SetToSeq({[devs |-> SetToSeq(a.ds), obs |-> a.obs] : a \in {a \in alts : d \in a.ds}})]
+       IN SetToSeq({[d |-> SetToSeq(a.ds), o |-> a.obs] : a \in alts})
 
 ---------------------------------------------------------------------------
 (* Laws of the ideal semantics, checked by TLC on every generated nest.     *)
